@@ -62,6 +62,7 @@ type Attempt struct {
 	TTY, CI, MCP, EnvVar, Typed, OperatorAllow bool
 	NetFault     string  `json:"net_fault,omitempty"` // "", artifact-404, artifact-short, index-err, bundle-err
 	BadSignature bool    `json:"bad_signature,omitempty"` // index signed with an unknown key
+	Freshness    bool    `json:"freshness,omitempty"`     // the index is a freshness-only re-sign: content of the previous attempt's index, new version, freshness key
 }
 
 type Scenario struct {
@@ -154,6 +155,13 @@ func GenScenario(seed int64) *Scenario {
 			a.NetFault = pick(r, "artifact-404", "artifact-short", "index-err", "bundle-err")
 		}
 		a.BadSignature = r.IntN(20) == 0
+		if i > 0 && r.IntN(4) == 0 {
+			// the nightly re-sign: same content as the index of the previous attempt (same connector,
+			// version and archive are asked for again), only index.version moves, freshness key only
+			p := sc.Attempts[i-1]
+			a.Conn, a.Version, a.Entries, a.Shape = p.Conn, p.Version, p.Entries, p.Shape
+			a.Freshness, a.CorruptBytes = true, false
+		}
 		sc.Attempts = append(sc.Attempts, a)
 	}
 	return sc
@@ -227,6 +235,9 @@ type World struct {
 	pub     ed25519.PublicKey
 	priv    ed25519.PrivateKey
 	badPriv ed25519.PrivateKey
+	freshPub  ed25519.PublicKey
+	freshPriv ed25519.PrivateKey
+	acceptedMax int64 // highest index version of an install that succeeded (its index was accepted)
 	keyID   string
 	archive map[int][]byte
 
@@ -665,6 +676,9 @@ func (w *World) publish(i int) {
 	var order []string
 	for j := 0; j <= i; j++ {
 		b := w.sc.Attempts[j]
+		if b.Freshness {
+			continue // a re-sign adds nothing to the content
+		}
 		c := conns[b.Conn]
 		if c == nil {
 			c = &index.Connector{Name: b.Conn, Publisher: index.Publisher{ExpectedOIDCIssuer: "https://issuer.sim", ExpectedIdentityPattern: "^https://sim/" + b.Conn + "/.*$"}}
@@ -715,8 +729,15 @@ func (w *World) publish(i int) {
 	if a.BadSignature {
 		priv = w.badPriv
 	}
+	role, kid := "root", w.keyID
+	if a.Freshness {
+		role, kid = "freshness", keyID(w.freshPub)
+		if !a.BadSignature {
+			priv = w.freshPriv
+		}
+	}
 	sig := ed25519.Sign(priv, canonical)
-	env := map[string]any{"payload": payload, "signatures": []map[string]any{{"role": "root", "keyId": w.keyID, "algorithm": "ed25519", "signature": base64.StdEncoding.EncodeToString(sig)}}}
+	env := map[string]any{"payload": payload, "signatures": []map[string]any{{"role": role, "keyId": kid, "algorithm": "ed25519", "signature": base64.StdEncoding.EncodeToString(sig)}}}
 	iraw, _ := json.Marshal(env)
 	n.files["http://sim/index.json"] = iraw
 	base := fmt.Sprintf("http://sim/%s/%s", a.Conn, a.Version)
@@ -756,6 +777,7 @@ func newWorld(sc *Scenario, root string) *World {
 	w.pub, w.priv, _ = ed25519.GenerateKey(seedReader{kr})
 	_, w.badPriv, _ = ed25519.GenerateKey(seedReader{kr})
 	w.keyID = keyID(w.pub)
+	w.freshPub, w.freshPriv, _ = ed25519.GenerateKey(seedReader{kr})
 	for i, a := range sc.Attempts {
 		w.archive[i] = buildArchive(a.Entries)
 	}
@@ -801,6 +823,7 @@ func (w *World) uninstall(i int) (err error) {
 func (w *World) runInstall(i int) (err error) {
 	a := w.sc.Attempts[i]
 	hwmAtStart := w.hwm
+	acceptedAtStart := w.acceptedMax
 	defer func() {
 		if r := recover(); r != nil {
 			w.violate("install-panicked", fmt.Sprintf("attempt %d (%s): install panicked: %v", i, a.Shape, r))
@@ -809,9 +832,15 @@ func (w *World) runInstall(i int) (err error) {
 		if err == nil && a.IndexVersion < hwmAtStart {
 			w.violate("older-index-accepted", fmt.Sprintf("attempt %d: install succeeded with index version %d although version %d had been recorded as accepted before it started", i, a.IndexVersion, hwmAtStart))
 		}
+		if err == nil && a.IndexVersion < acceptedAtStart {
+			w.violate("older-index-accepted", fmt.Sprintf("attempt %d: install succeeded with index version %d although an install with index version %d had succeeded (its index was accepted) before it started", i, a.IndexVersion, acceptedAtStart))
+		}
+		if err == nil && a.IndexVersion > w.acceptedMax {
+			w.acceptedMax = a.IndexVersion
+		}
 	}()
 	tv := &registry.TrustedVerifier{
-		Anchors:      index.TrustAnchors{Roots: map[string]ed25519.PublicKey{w.keyID: w.pub}},
+		Anchors:      index.TrustAnchors{Roots: map[string]ed25519.PublicKey{w.keyID: w.pub}, Freshness: map[string]ed25519.PublicKey{keyID(w.freshPub): w.freshPub}},
 		StatePath:    w.statePath,
 		LockTimeout:  2 * time.Second,
 		MaxStaleness: 24 * time.Hour,
@@ -863,6 +892,7 @@ type Stats struct {
 	Faults                                                      map[string]int
 	Ops                                                         int
 	PowerLossPoints, UnsyncedFilesCut, TornBinaries, Uninstalls int
+	FreshnessAttempts, FreshnessAccepted                        int // freshness-only re-signed indexes presented / accepted (clean passes)
 	ConcRuns, ConcCrashes, ConcFaults, LockWaits, LockTimeouts  int
 	Schedules                                                   int // distinct schedules (sequences of scheduler picks) of interleaved installs
 	schedules                                                   map[uint64]bool
@@ -899,6 +929,7 @@ func mkSandbox(base string) string {
 func (w *World) clone(root string) *World {
 	n := newWorld(w.sc, root) // (re-creates canaries identically; tree is then overwritten by copy)
 	n.hwm = w.hwm
+	n.acceptedMax = w.acceptedMax
 	for k, v := range w.accepted {
 		n.accepted[k] = v
 	}
@@ -958,6 +989,12 @@ func RunScenario(sc *Scenario, base string, maxPoints int, only *Found, st *Stat
 			st.Installed++
 		} else {
 			st.Refused++
+		}
+		if a.Freshness {
+			st.FreshnessAttempts++
+			if err == nil {
+				st.FreshnessAccepted++
+			}
 		}
 		nops := w.ops
 		st.Ops += nops
